@@ -20,7 +20,7 @@ func TestC06(t *testing.T) {
 	rc := fullRuleCfg()
 	rc.Forget = false
 	cfg := rsGenCfg{Rules: rc, Vary: true, MaxCycle: func(rt *rapid.T) uint64 { return 40 }}
-	check(t, 0, budget(1200, 50000), func(rt *rapid.T) {
+	check(t, 0, budget(4000, 60000), func(rt *rapid.T) {
 		c, rs := genRSCase(rt, cfg)
 		prep, err := val.Prepare(c)
 		if err != nil {
